@@ -212,6 +212,22 @@ class Engine(EngineBase):
                      ["sp_set", -2, "c", new_v], ["sp_set", -2, "b", 4]]
             at = rng.randrange(0, len(ops) + 1)
             ops[at:at] = block
+        if P == "C03" and rng.random() < 0.08:
+            # two independently opened handles of one job that both used the document; clear() through the
+            # first, then a document write through the second (which must not bring the cleared keys back)
+            a = {"a": 11, "b": rng.choice([1, 2])}
+            block = [["open", 0, a, False], ["init", -1], ["doc_set", -1, "p", 1], ["open", 0, a, False],
+                     ["doc_set", -1, "q", 2], [rng.choice(["clear", "clear", "reset"]), -2], ["doc_set", -1, "p", 3]]
+            at = rng.randrange(0, len(ops) + 1)
+            ops[at:at] = block
+        if P == "C02" and rng.random() < 0.10:
+            # a job that is valid on disk from an earlier session is opened by a mapping the caller then
+            # mutates, and looked up by id / prefix / iteration in the same session
+            a = gen_sp(rng, "abcd", 2)
+            block = [["open", 0, a, True], ["init", -1], ["restart"], ["open", 0, a, True], ["lookup", 0],
+                     ["open_id", 0, a, rng.choice([32, "min", "min+1"])], ["lookup", 0]]
+            at = rng.randrange(0, len(ops) + 1)
+            ops[at:at] = block
         if P == "C04" and rng.random() < 0.08:
             # a whole assignment that is refused, through a handle opened by id in a fresh session without a
             # cache file whose state point was never looked at; then the next legitimate edit
